@@ -9,21 +9,25 @@ LEVEL = "model_checking"
 RULE = (
     "X1: for each corpus scenario, the default execution and every execution with <= bound deviations "
     "(request in {pause,deferred pause,abort,stop,halt,suspend} at every loop position incl. mid-callback; "
-    "device fault raise/failed-status at every ledger op) x every post-pause decision vector; "
+    "device fault raise/failed-status at every ledger op) x every post-pause decision vector; plus a subscriber that raises on the i-th document for every i (thorough: combined with one request at every position); "
     "non-trivial = behaviour digest (docs, msgs, calls, states, ledger) differs from the reference run"
 )
 ASSUMPTIONS = _x1.X1_ASSUMPTIONS
 
 F = ("raise", "fail")
+CBFAIL = [("tiny", 4), ("nested", 12), ("monitor1", 8), ("fly1", 8), ("tworuns", 10)]  # (scenario, >= number of documents it emits)
 _q = ["count2", "scan2", "nested", "monitor1", "fly1", "cleanup", "clearcp", "subs", "baseline", "bare", "tworuns", "grid22s"]
 SPECS = {
     "quick": [spec(k, bound=1, faults=F) for k in _q] + [spec(k, bound=1, faults=F, a=1) for k in ("scan2", "cleanup", "bare", "fly1")]
-    + [spec(k, bound=1, faults=F, ri=1) for k in ("tiny", "nested", "planpause")],
+    + [spec(k, bound=1, faults=F, ri=1) for k in ("tiny", "nested", "planpause")]
+    # a document consumer that raises on the i-th document (ignore_callback_exceptions=False, the default), every i
+    + [spec(k, [], bound=0, cbfail=i, ri=ri) for k, n in CBFAIL for ri in (0, 1) for i in range(n + ri * 2)],
     "thorough": [spec(k, bound=1, faults=F) for k in _q]
     + [spec(k, bound=1, faults=F, ri=1, a=a) for k in ("tiny", "nested", "planpause", "count2", "monitor2") for a in (0, 1)]
     + [spec(k, bound=1, faults=F, a=1) for k in _q]
     + [spec(k, bound=2, faults=F) for k in ("tiny", "tworuns", "bare", "clearcp")]
-    + [spec("tiny", bound=2, faults=F, a=1)],
+    + [spec("tiny", bound=2, faults=F, a=1)]
+    + [spec(k, bound=1, cbfail=i, ri=ri) for k, n in CBFAIL for ri in (0, 1) for i in range(n + ri * 2)],
 }
 
 
